@@ -691,6 +691,67 @@ fn run_attach_probe(c: &Value) -> Value {
   json!({"rows": [row]})
 }
 
+/// Failing-input search for "a call that fails changes nothing": a REQ whose send() is REFUSED by
+/// back-pressure (SNDTIMEO=0, the REP never reads, RCVHWM=1 over inproc). Requests are issued until one
+/// is refused (each earlier cycle ends with a recv() that times out); then recv() and send() are probed.
+/// rows: [[refused_seen, code of the refused send, code of recv() right after it, code of the next send()]]
+fn run_bp(c: &Value) -> Value {
+  let tr = c["tr"].as_str().unwrap_or("inproc").to_string();
+  let rt = tokio::runtime::Builder::new_multi_thread().worker_threads(2).enable_all().build().unwrap();
+  let row = rt.block_on(async move {
+    let ctx = Context::new().expect("ctx");
+    let rep = ctx.socket(SocketType::Rep).expect("rep");
+    rep.set_option_raw(opt::RCVHWM, &1i32.to_ne_bytes()).await.expect("rcvhwm");
+    let ep = if tr == "inproc" { format!("inproc://c10bp-{}", std::process::id()) } else { "tcp://127.0.0.1:0".to_string() };
+    rep.bind(&ep).await.expect("bind");
+    let ep = if tr == "inproc" { ep } else { String::from_utf8(rep.get_option(opt::LAST_ENDPOINT).await.expect("le")).unwrap() };
+    let req = ctx.socket(SocketType::Req).expect("req");
+    req.set_option_raw(opt::SNDHWM, &1i32.to_ne_bytes()).await.expect("sndhwm");
+    req.set_option_raw(opt::SNDTIMEO, &0i32.to_ne_bytes()).await.expect("sndtimeo");
+    req.set_option_raw(opt::RCVTIMEO, &30i32.to_ne_bytes()).await.expect("rcvtimeo");
+    req.connect(&ep).await.expect("connect");
+    tokio::time::sleep(Duration::from_millis(150)).await;
+    let big = if tr == "inproc" { 64usize } else { 256 * 1024 };
+    let mut row = vec![0u64, 0, 0, 0];
+    for i in 0..200u64 {
+      let r = tokio::time::timeout(Duration::from_millis(3000), req.send(Msg::from_vec(vec![i as u8; big]))).await;
+      match r {
+        Ok(Ok(())) => {
+          // ends the cycle: nobody answers, recv() times out
+          let _ = tokio::time::timeout(Duration::from_millis(3000), req.recv()).await;
+        }
+        Ok(Err(e)) if !matches!(e, ZmqError::InvalidState(_)) => {
+          let rc = match tokio::time::timeout(Duration::from_millis(3000), req.recv()).await {
+            Ok(Ok(_)) => 0,
+            Ok(Err(e2)) => err_code(&e2),
+            Err(_) => 99,
+          };
+          let sc = match tokio::time::timeout(Duration::from_millis(3000), req.send(Msg::from_vec(vec![7u8; big]))).await {
+            Ok(Ok(())) => 0,
+            Ok(Err(e2)) => err_code(&e2),
+            Err(_) => 99,
+          };
+          row = vec![1, err_code(&e), rc, sc];
+          break;
+        }
+        Ok(Err(e)) => {
+          row = vec![2, err_code(&e), 0, 0]; // refused by the state check although the previous cycle had ended
+          break;
+        }
+        Err(_) => {
+          row = vec![3, 99, 0, 0];
+          break;
+        }
+      }
+    }
+    let _ = tokio::time::timeout(Duration::from_millis(300), req.close()).await;
+    let _ = tokio::time::timeout(Duration::from_millis(300), rep.close()).await;
+    row
+  });
+  rt.shutdown_timeout(Duration::from_millis(100));
+  json!({"rows": [row]})
+}
+
 pub fn run_case(c: &Value) -> Value {
   let r = catch_unwind(AssertUnwindSafe(|| match c["k"].as_str().unwrap() {
     "req" | "rep" => {
@@ -707,6 +768,7 @@ pub fn run_case(c: &Value) -> Value {
       v
     }
     "mt" => run_mt(c),
+    "bp" => run_bp(c),
     "attach_probe" => run_attach_probe(c),
     other => panic!("unknown case kind {other}"),
   }));
